@@ -368,7 +368,7 @@ def _output_obj(repo, n, kinds, conn, static=False):
         name="out", _name="out", logger=Logger(label="logger"), _total_mem=Sym("mem0"),
         _output_info=Obj(label="info", fields={"units": Sym("u_out")}),
         _connected_inputs=conn, _out_infos_exchanged=len(conn), _static=static,
-        _targets=[Obj(label="t")], _time=T(n - 1) if n else None,
+        _targets=[Obj(label="t")], _time=T(n - 1) if n else None, _mem_counter=Sym("counter"),
     )
     return o
 
@@ -600,9 +600,9 @@ def r39_static(repo, sink):
                       _input_info=Obj(label="info", fields={"units": Sym("u")}))
     r1 = it.run(pd, [Q], self_obj=inp)
     r2 = it.run(pd, [None], self_obj=inp)
-    sink.check(len(it.fetches) == 1 and r1 == r2, "R39", "static-input-cache", pd,
+    sink.check(len(it.fetches) == 1 and r1 == r2 and isinstance(r1, Sym) and r1.op == "converted", "R39", "static-input-cache", pd,
                ok="static input fetches once and serves the cached value afterwards",
-               bad=f"static input fetched {len(it.fetches)} time(s); results {r1!r} / {r2!r}")
+               bad=f"static input fetched {len(it.fetches)} time(s); results {r1!r} / {r2!r} (must be the converted and checked value both times)")
 
 
 class _PushInterp(BufInterp):
